@@ -29,6 +29,6 @@ PROP = Property(
                  "which attempt times out, and in which order simultaneous timeouts are processed, is an input of the model (read back from the implementation); connections, TCP, EDNS/cookie resends, the query cache and allocation failures are not modelled; server identity in list edits is the address (ports and link-local scope are the channel defaults throughout)",
                  "server-list edits are modelled for the code WITH fixes/C09-stale-servers-unlink-first.patch and probes for the code WITH fixes/C09-probe-pending-no-dangling.patch (the pinned behaviour is the separate function set_servers_pinned, theorem C09_edit_pinned_refuted)",
                  "engine chan09 has no model replay: the extracted monitor judges the simulator's TX / SERVERSTATE / setservers stream, the library's failure counters (QSTATE) and the order of ares_get_servers_csv; TCP and truncation are tied through this engine only (model events EvConnLost, EvTruncated are not replayed): a write queued on a still-connecting TCP socket is judged against the tables seen since the CONNECT (its first write strictly); the success of an answering server is applied to the choice monitor when the completion of the answered query is seen (model order: success, then completion), even if the library reports it later; queries of search/getaddrinfo requests are recognised by the generator's naming convention h<T>; the probe-liveness clause (probe-missing) is evaluated only with retry chance 1 (draws are not logged), over UDP, for the first attempt of a request made from an API call, with retry times derived from the failure callbacks and the virtual clock"],
-    rule="generated histories (queries, answers, SERVFAIL/REFUSED/NOTIMP, timeouts, clock advances around the retry delay, server-list edits between queries and while attempts are in flight: add / remove / reverse / rotate / swap / mix / replace / duplicates / empty; TCP closes/resets; socket()/connect()/sendto() failures for probe copies and user queries; truncated answers; queries started from inside completion callbacks and search/getaddrinfo next candidates) over 1..8 servers with rotation on/off and failover options; non-trivial = at least one user query was sent; distinct by case text",
+    rule="generated histories (queries, answers, SERVFAIL/REFUSED/NOTIMP, timeouts, clock advances around the retry delay, server-list edits between queries and while attempts are in flight: add / remove / reverse / rotate / swap / mix / replace / duplicates / empty; TCP closes/resets; socket()/connect()/sendto() failures for probe copies and user queries; truncated answers; queries started from inside completion callbacks and search/getaddrinfo next candidates) over 1..8 servers with rotation on/off and failover options (retry chance 0 / 1 / 2 / 3 / 10 / 65535, delay 0 .. INT_MAX; with chance 0 dozens of fresh queries after a failure and the default delay); non-trivial = at least one user query was sent; distinct by case text",
     generated_fns=["src/lib/ares_init.c:server_sort_cb", "src/lib/ares_process.c:ares_timedout", "src/lib/ares_process.c:timeadd"],
 )
